@@ -13,6 +13,7 @@ def run(chk, ctx):
                        "split by the shape of the returned value, composed through callee summaries), GUARD (read-call iff update_output, write-call otherwise, with an empty output vector), "
                        "ORG (the argument of every driver call is the row's own input vector / the default vector, passed by reborrow only; the yielded DataRow.inputs is that same vector moved), "
                        "WHO-writes of update_output. A user override of write_input is user code; the rule fixes which method is invoked with what.")
+    provided_write_input_rule(chk, P)
     # "nothing is sent once next() has returned None": the interpreter's end is final (shared with C01)
     from . import c01
     c01.end_is_final(chk, P)
